@@ -119,6 +119,14 @@ impl TypeAggregator {
             if new_version > existing_version {
                 // New version is higher: remove old entry, insert new name
                 let merged_kind = self.imports.shift_remove(&existing_name).unwrap();
+                // The merged interface is now known by the higher version: keep its
+                // id in step with the import name so that interfaces using it import
+                // it under the same name no matter which version was seen first
+                if let ItemKind::Instance(id) = merged_kind {
+                    if self.types[id].id.as_deref() == Some(existing_name.as_str()) {
+                        self.types[id].id = Some(name.to_string());
+                    }
+                }
                 self.imports.insert(name.to_string(), merged_kind);
                 // Update any existing redirects that pointed to the old name
                 for redirect in self.name_redirects.values_mut() {
